@@ -221,6 +221,8 @@ def dict_keyword_access(d, key):
         yaql> {"a" => 1, "b" => 2}.a
         1
     """
+    if key not in d:
+        raise KeyError(key)
     return d[key]
 
 
@@ -243,6 +245,8 @@ def dict_indexer(d, key):
         yaql> {"a" => 1, "b" => 2}["a"]
         1
     """
+    if key not in d:
+        raise KeyError(key)
     return d[key]
 
 
